@@ -241,7 +241,8 @@ def judge(ctx, scns, trace_path, results_path, expected, label):
                             ctx.violation("isolation:%s" % field,
                                           "%s with parameters %s: %s differ from the same parameters run alone (%s), concurrent vs alone at %s"
                                           % (who, json.dumps(r["acts"]), field, base["scn"], diff(r[field], base[field])),
-                                          replay_of([base["scn"], scn]))
+                                          replay_of(sorted(set(alone[(x["data_seed"], x["variant"])]["scn"] for x in rs
+                                                               if (x["data_seed"], x["variant"]) in alone)) + [scn]))
             elif r["trades_seen"] < r["orders_fired"]:
                 stats["inmem_runs_ending_with_unprocessed_fills"] += 1
             # spec -> impl: the final observation is one of the outcomes TLC enumerated for these parameters
